@@ -21,7 +21,7 @@ from harness.props import _sched_common as SC
 from harness.props import _sched_hardening as H
 
 MANIFEST_ENTRY = {
-    "text": "Lean theorems (Props/C06.lean) over the planner/schedule model, for every configuration and every multi-year history of days with arbitrary crew outcomes: requests_guarded (a routine request is issued only in a deployment year and month, with done < required for the year, no outstanding request and the plan date reached) and not_deployed_never_requested (frequency forced to 0 where the method is not deployed: never a request); done_le_required_partial (completed <= required for every site and year, by an invariant over the history, provided no carried-over survey completes in a year without requirement); all_done_when_feasible (if every request completes the day it is issued, plan dates are increasing, simulated and inside deployment months, then done = required after every full deployment year: induction over the days of the year); stationary_once_per_workable_day / C06_stationary (a deployed site is planned on every day of its calendar, observed iff workable, never twice), stationary_guard_ignores_done + stationary_every_workable_day (in a fully workable period every day is observed: 366 in a leap year), counted_on_completion_year (every kind of schedule books a completion once, on the completion day's year), not_deployed_never_planned / not_deployed_never_surveyed (never in a work plan, never counted where the method is not deployed), done_le_required_static (the count bound under the static decidable hypothesis StaticYears), calendar_partial / calendar_when_nothing_carried (only a carried request can be served outside the deployment calendar), all_done_in_year_from_quiet. The full-strength statement C06_statement is proved false of the code as it stands (C06_counterexample: a request issued in the deployment month is served after it; C06_count_counterexample: a survey carried over New Year is booked on a year without requirement; C06_feasible_counterexample: the real plan for months [2,5,10] x 4 has a date in November) — known findings F12/F15, replayed on the real classes on every run. The model is tied to the real planner/schedule/work-plan/queue classes by day-by-day differential correspondence over multi-year loops; the plan hypothesis is measured on the real _generate_evenly_spaced_dates for month subsets x frequencies 1..24; the clauses are evaluated directly on component and whole-simulation traces.",
+    "text": "Lean theorems (Props/C06.lean) over the planner/schedule model, for every configuration and every multi-year history of days with arbitrary crew outcomes: requests_guarded (a routine request is issued only in a deployment year and month, with done < required for the year, no outstanding request and the plan date reached) and not_deployed_never_requested (frequency forced to 0 where the method is not deployed: never a request); done_le_required_partial (completed <= required for every site and year, by an invariant over the history, provided no carried-over survey completes in a year without requirement); all_done_when_feasible (if every request completes the day it is issued, plan dates are increasing, simulated and inside deployment months, then done = required after every full deployment year: induction over the days of the year); stationary_once_per_workable_day / C06_stationary (a deployed site is planned on every day of its calendar, observed iff workable, never twice), stationary_guard_ignores_done + stationary_every_workable_day (in a fully workable period every day is observed: 366 in a leap year), counted_on_completion_year (every kind of schedule books a completion once, on the completion day's year), not_deployed_never_planned / not_deployed_never_surveyed (never in a work plan, never counted where the method is not deployed), done_le_required_static (the count bound under the static decidable hypothesis StaticYears), calendar_partial / calendar_when_nothing_carried (only a carried request can be served outside the deployment calendar), all_done_in_year_from_quiet. The full-strength statement C06_statement is proved false of the code as it stands (C06_counterexample: a request issued in the deployment month is served after it; C06_count_counterexample: a survey carried over New Year is booked on a year without requirement; C06_feasible_counterexample: the real plan for months [2,5,10] x 4 has a date in November) — known findings F12/F15, replayed on the real classes on every run. Layer 3: queue_site_for_survey (scheduled / mobile / stationary planner) and add_to_surveys_done are translated from the current source to Lean on every run (Generated/PlannerSrc.lean) and Props/PlannerTie.lean proves them equal to the model's guardRoutine / guardStationary / finish. The model is tied to the real planner/schedule/work-plan/queue classes by day-by-day differential correspondence over multi-year loops; the plan hypothesis is measured on the real _generate_evenly_spaced_dates for month subsets x frequencies 1..24; the clauses are evaluated directly on component and whole-simulation traces.",
     "design_ref": "DESIGN.md 5.6, 4.3",
     "note": "trusted: Lean kernel + propext/Classical.choice/Quot.sound; the hand-written planner/schedule model (tied by sampled correspondence, not proof); dates are inputs of the model (year/month/day of each simulated day, taken from datetime.date in the harness); the evenly spaced plan dates are an input list regenerated from the real code on every run; crew outcomes are inputs; harness adapters and stubs",
     "technique": "Lean 4 invariant / induction proofs over the planner and schedule model + differential correspondence with the real classes over multi-year day loops + measured plan hypothesis + direct oracle on component and whole-run traces",
@@ -714,6 +714,8 @@ def run(ctx):
                 "per (month subset, frequency) of the real plan generator; non-trivial = a request was issued; distinct "
                 "by (kind, sizes, frequency/month/year shape, carried over month / year end, crash, years)")
     core.lean_stage(ctx, MODULE, FILE, drivers=["drv_sched"])
+    from harness.props import _tie
+    _tie.planner_tie(ctx)  # layer 3: queue_site_for_survey / add_to_surveys_done, translated from the current source, are guardRoutine / guardStationary / finish
     rng = ctx.rng
     witnesses(ctx)
     run_loop_cases(ctx, boundary_cases(), tag="boundary")
